@@ -13,6 +13,7 @@ type Chooser struct {
 	rng    uint64
 	replay map[string][]int // per class, nil when generating
 	pos    map[string]int
+	sched  map[string]int // replay: scheduling decisions keyed by their label (scheduling point)
 	Log    []kern.Choice
 	// strategy knobs of the random mode (drawn from rng, not recorded: they
 	// only shape the distribution of recorded values)
@@ -47,9 +48,16 @@ func NewRandom(seed uint64) *Chooser {
 // NewReplay returns a chooser that replays a recorded vector. Values are
 // consumed per class in order; a class that runs out answers 0.
 func NewReplay(v []kern.Choice) *Chooser {
-	c := &Chooser{replay: map[string][]int{}, pos: map[string]int{}}
+	c := &Chooser{replay: map[string][]int{}, pos: map[string]int{}, sched: map[string]int{}}
 	for _, ch := range v {
 		cl := kern.Class(ch.L)
+		if cl == "sched" {
+			// scheduling decisions name their scheduling point: removing one leaves the others in place
+			if ch.V != 0 {
+				c.sched[ch.L] = ch.V
+			}
+			continue
+		}
 		c.replay[cl] = append(c.replay[cl], ch.V)
 	}
 	return c
@@ -90,6 +98,16 @@ func (c *Chooser) Choose(label string, n int) int {
 		return 0
 	}
 	v := 0
+	if c.replay != nil && cl == "sched" {
+		v = c.sched[label]
+		if v < 0 || v >= n {
+			v = 0
+		}
+		if v != 0 || len(c.Log) < 1<<20 {
+			c.Log = append(c.Log, kern.Choice{L: label, N: n, V: v})
+		}
+		return v
+	}
 	if c.replay != nil {
 		s := c.replay[cl]
 		p := c.pos[cl]
@@ -102,6 +120,7 @@ func (c *Chooser) Choose(label string, n int) int {
 		}
 		c.pos[cl] = p + 1
 	} else if cl == "sched" {
+		// a task id (run it if runnable, else default) or n-1 (let simulated time pass)
 		if int(c.next()%1000) < c.switchPermille {
 			v = int(c.next() % uint64(n))
 		}
@@ -111,6 +130,20 @@ func (c *Chooser) Choose(label string, n int) int {
 		}
 	} else {
 		v = int(c.next() % uint64(n))
+	}
+	c.Log = append(c.Log, kern.Choice{L: label, N: n, V: v})
+	return v
+}
+
+// ChooseFrom implements kern.ChooserFrom: when generating, a scheduling
+// decision is drawn among the values that mean something at this point.
+func (c *Chooser) ChooseFrom(label string, n int, valid []int) int {
+	if c.replay != nil || c.quiet[kern.Class(label)] || len(valid) < 2 {
+		return c.Choose(label, n)
+	}
+	v := 0
+	if int(c.next()%1000) < c.switchPermille {
+		v = valid[int(c.next()%uint64(len(valid)))]
 	}
 	c.Log = append(c.Log, kern.Choice{L: label, N: n, V: v})
 	return v
